@@ -111,3 +111,5 @@ let main file =
   let ic = open_in file in
   iter_lines ic run_case;
   close_in ic
+
+let () = main Sys.argv.(1)
